@@ -97,6 +97,10 @@ def build(ctx, tier="quick"):
     for pre in ([], [(big, "tskind")], [(tmp, "temp")], [(big, "tskind"), (tmp, "temp")]):
         t0 = s.words(c, "ent:TABLESPACE", pre + [("KW", "TABLESPACE"), (nm, "name")])
         s.eps(t0, fin)
+    # ---- DROP TABLE [s.]n : reported as a (column-less) table entry, which must still have the documented shape
+    d0 = s.words(s.start, "ent:DROP", [("KW", "DROP"), ("KW", "TABLE")])
+    d1 = named(d0, "ent:DROP")
+    s.eps(d1, fin)
     # ---- a table using such types: CREATE TABLE t ( a1 s.n , a2 n )
     t0 = s.words(c, "ent:USE", [("KW", "TABLE"), (pl("t", ["tbl", "orders", "Users", "t_1x", "order_items", "Tbl2"]), "tname"), P["("],
                                 (a1, "a1"), (sc, "schema"), P["."], (nm, "name"), P[","], (a2, "a2"), (nm, "name2"), P[")"]])
@@ -195,6 +199,9 @@ class EntitiesOracle:
             return {"database_name": r["name"]}, "database_name"
         if kind == "ent:TABLESPACE":
             return {"tablespace_name": r["name"], "type": r.get("tskind"), "temporary": "temp" in r}, "tablespace_name"
+        if kind == "ent:DROP":
+            return {"table_name": r["name"], "schema": r.get("schema"), "primary_key": [], "columns": [], "alter": {}, "checks": [],
+                    "index": [], "partitioned_by": [], "tablespace": None}, "table_name"
         if kind == "ent:USE":
             return {"table_name": r["tname"], "columns": ColumnsNamed([(r["a1"], lift(lambda a, b: f"{a}.{b}", r["schema"], r["name"])),
                                                                       (r["a2"], r["name2"])], key=None)}, "table_name"
